@@ -32,7 +32,6 @@ func c07Programs(ctx *core.Ctx) []*dsl.Program {
 		pts = lePoint
 	}
 	progs = append(progs, withPoints(dsl.P4(), pts)...)
-	progs = append(progs, withPoints(append(append(lengthPrograms(), matchPrograms()...), checksumPrograms()...), pts)...)
 	return progs
 }
 
@@ -134,6 +133,24 @@ func C07(ctx *core.Ctx) int {
 					}
 					ctx.Report(fmt.Sprintf("%s|declared %s has no counterpart in the emitted code", l, what),
 						fmt.Sprintf("program %s (%s): %s\n%s", pc.Prog.Name, l, o.ErrText, core.Trunc(pc.Text, 600)), rep)
+				}
+			}
+			// (d) Python has no build step that resolves names: "valid against the codec runtime API" shows when the
+			// code runs. An attribute or name that does not exist (AttributeError / NameError / ImportError) is
+			// what a compiler would have rejected in the other targets.
+			if baseLang(l) == "python" {
+				said := map[string]bool{}
+				for _, o := range cc.T.Out {
+					if o.Kind != "ERR" || o.ErrKind != "error" {
+						continue
+					}
+					for _, cls := range []string{"AttributeError", "NameError", "ImportError", "ModuleNotFoundError"} {
+						if strings.HasPrefix(o.ErrText, cls) && !said[cls] {
+							said[cls] = true
+							ctx.Report(fmt.Sprintf("%s|emitted code uses a name that neither it nor the runtime API defines|%s|%s", l, errWord(o.ErrText), progClass(pc.Prog.Name)),
+								fmt.Sprintf("program %s (%s): %s\n%s", pc.Prog.Name, l, o.ErrText, core.Trunc(pc.Text, 600)), rep)
+						}
+					}
 				}
 			}
 			for i, m := range pc.Msgs {
